@@ -54,7 +54,7 @@ let () =
         else Printf.printf "MISMATCH %s DecodeAudioSpecificConfig model=%s\n" id m
       | ["HN"; id; f; ch; ot; plen; obs] ->
         let m = match new_adts (z_of_hex f) (ni ch) (ni ot) (ni plen) with
-          | Ok h -> "ok/" ^ adts_fields h
+          | Ok h -> "ok/" ^ adts_fields h ^ "/" ^ string_of_int (int_of_n (adts_frequency h))
           | _ -> "err" in
         if m = obs then Printf.printf "OK %s\n" id
         else Printf.printf "MISMATCH %s NewADTSHeader model=%s\n" id m
